@@ -214,11 +214,16 @@ pub fn generate(tier: &str, rng: &mut Rng) -> Vec<String> {
         }
     }
     for case in 0..(if thorough { 10_000 } else { 150 }) {
-        let n = match rng.below(4) { 0 => rng.range(0, 40) as usize, _ => rng.range(40, 200) as usize };
-        v.push(format!("B {case} acct {n}"));
+        let mut n = match rng.below(4) { 0 => rng.range(0, 40) as usize, _ => rng.range(40, 200) as usize };
         let mut sh: Vec<(usize, usize)> = vec![];
         let nent = rng.range(1, 5);
-        for _ in 0..nent { let tg = rng.below(4) as usize; let l = rng.below(20) as usize; v.push(format!("O allocpack {tg} 1 {}", hex(&rng.bytes(l)))); sh.push((tg, l)); }
+        // one account in five is exactly full (no spare byte behind the last entry), and in those the last entry is empty half
+        // of the time: its 12-byte header then ends exactly at the end of the account data
+        let exact = rng.chance(1, 5);
+        let mut lens: Vec<usize> = (0..nent).map(|_| rng.below(20) as usize).collect();
+        if exact { if rng.chance(1, 2) { *lens.last_mut().unwrap() = 0; } n = lens.iter().map(|l| 12 + l).sum(); }
+        v.push(format!("B {case} acct {n}"));
+        for l in lens { let tg = rng.below(4) as usize; v.push(format!("O allocpack {tg} 1 {}", hex(&rng.bytes(l)))); sh.push((tg, l)); }
         for _ in 0..rng.range(3, if thorough { 25 } else { 12 }) {
             let i = rng.below(sh.len() as u64) as usize;
             let (tg, old) = sh[i];
